@@ -11,9 +11,11 @@ CONSTANTS W, Steps
 VARIABLES kind, n, sigma, acc, prop, done, out, gpos, fresh, phase, used, sc
 S == INSTANCE Seeds WITH MaxChains <- 600, Derive <- "wrapping", PropSeed <- "perchain", HmcDraws <- "own"
 
+\* residues 3 and 4 stand for 42 + 2^32 and 42 + 2^63: equal to 42 in their low 32 / 63 bits, different seeds nevertheless
 SeedName(s) == CASE s = 0 -> "0" [] s = 1 -> "1" [] s = 2 -> "42"
+                 [] s = 3 -> "4294967338" [] s = 4 -> "9223372036854775850"
                  [] s = W - 2 -> "18446744073709551614" [] s = W - 1 -> "18446744073709551615"
-SeedClasses == {0, 1, 2, W - 2, W - 1}
+SeedClasses == {0, 1, 2, 3, 4, W - 2, W - 1}
 \* n = 600 (HMC only): a batch large enough that an implementation might split the draw generation over threads
 Scenarios ==
   {x \in [kind : {"MH", "Gibbs", "HMC", "NUTS"}, n : {1, 2, 3, 5, 600}, seed : SeedClasses,
